@@ -45,7 +45,7 @@ var (
 
 type baseline struct {
 	x, y   []*stmt
-	vx, vy string // front-end values of the two harmless stand-ins
+	vx, vy Val // front-end values of the two harmless stand-ins
 	errX   error
 	loaded bool
 }
@@ -69,9 +69,16 @@ func lexAll(sqls []string) []*stmt {
 
 // run executes the site with the raw string s at the position.
 func (c *checker) run(site *Site, s string) (q Quoted, expressible bool, sqls []string, err error) {
-	q, ok := site.Quote.F(s)
+	return c.runQ(site, site.Quote, s)
+}
+
+func (c *checker) runQ(site *Site, quote QuoteFn, s string) (q Quoted, expressible bool, sqls []string, err error) {
+	q, ok := quote.F(s)
 	if !ok {
 		return q, false, nil, nil
+	}
+	if q.Hole == "" {
+		q.Hole = q.Value
 	}
 	c.renders++
 	sqls, err = site.Exec(c.env, q.Text)
@@ -80,15 +87,20 @@ func (c *checker) run(site *Site, s string) (q Quoted, expressible bool, sqls []
 
 func (c *checker) baseline(site *Site, va Variant) *baseline {
 	key := site.ID + "\x00" + va.BX + "\x00" + va.BY
+	quote := site.Quote
+	if va.Whole && site.BaseQuote.F != nil {
+		key += "\x00whole"
+		quote = site.BaseQuote
+	}
 	if b, ok := c.bases[key]; ok {
 		return b
 	}
 	b := &baseline{}
-	qx, okx, sx, errX := c.run(site, va.BX)
-	qy, oky, sy, _ := c.run(site, va.BY)
+	qx, okx, sx, errX := c.runQ(site, quote, va.BX)
+	qy, oky, sy, _ := c.runQ(site, quote, va.BY)
 	if okx && oky {
 		b.x, b.y = lexAll(sx), lexAll(sy)
-		b.vx, b.vy = qx.Value, qy.Value
+		b.vx, b.vy = valOf(qx), valOf(qy)
 		b.errX = errX
 		b.loaded = true
 	}
@@ -135,14 +147,15 @@ func (c *checker) check(site *Site, s string) CaseResult {
 	}
 	variants := defaultVariants
 	if site.Variants != nil {
-		variants = site.Variants(q.Value)
+		variants = site.Variants(q)
 	}
+	v := valOf(q)
 	var best *Finding
 	anyBaseline := false
 	for _, va := range variants {
 		applicable := false
 		for _, tr := range va.T {
-			if _, ok := tr.Pre(q.Value); ok {
+			if _, ok := tr.Pre(v); ok {
 				applicable = true
 			}
 		}
@@ -154,7 +167,7 @@ func (c *checker) check(site *Site, s string) CaseResult {
 			continue
 		}
 		anyBaseline = true
-		f, carriers := compare(got, b.x, b.y, va, q.Value, b.vx, b.vy)
+		f, carriers := compare(got, b.x, b.y, va, v, b.vx, b.vy)
 		if f == nil {
 			res.Carriers = carriers
 			if carriers == 0 {
@@ -187,9 +200,16 @@ func (c *checker) check(site *Site, s string) CaseResult {
 	return res
 }
 
+func valOf(q Quoted) Val {
+	if q.Hole == "" {
+		return Val{q.Value, q.Value}
+	}
+	return Val{q.Value, q.Hole}
+}
+
 func defaultBaselineVariant(site *Site) Variant {
 	if site.Variants != nil {
-		if vs := site.Variants("x"); len(vs) > 0 {
+		if vs := site.Variants(Quoted{Text: "x", Value: "x", Hole: "x"}); len(vs) > 0 {
 			return vs[0]
 		}
 	}
@@ -254,31 +274,42 @@ func workerMain(thorough bool) {
 		fmt.Fprintln(os.Stderr, "worker: fd 3 missing")
 		os.Exit(2)
 	}
-	H := hostileSet(thorough)
 	c := newChecker()
-	total := len(sites) * len(H)
 	perClass := map[string]int{}
-	var reduced map[string]bool
-	if !thorough {
-		reduced = reducedSet()
-	}
 	w := bufio.NewWriterSize(out, 1<<16)
-	for idx := *flagShard; idx < total; idx += *flagOf {
-		if *flagOnly >= 0 && idx != *flagOnly {
-			continue
+	mine := func(si int) bool { return si%*flagOf == *flagShard }
+	// site table self-check for this worker's sites (also warms the baselines): does the harmless value reach a
+	// statement exactly where the table says it does?
+	var silent []string
+	if *flagOnly < 0 && *flagFrom == 0 {
+		for i := range sites {
+			if !mine(i) {
+				continue
+			}
+			site := &sites[i]
+			va := defaultBaselineVariant(site)
+			b := c.baseline(site, va)
+			n := 0
+			var bf *Finding
+			if b.loaded {
+				bf, n = compare(b.x, b.x, b.y, va, b.vx, b.vx, b.vy)
+			}
+			if bf != nil {
+				continue // the harmless renderings themselves break the oracle: reported as violations by the cases
+			}
+			if (n == 0) != site.NotInSQL {
+				silent = append(silent, fmt.Sprintf("%s carriers=%d notInSQL=%v statements=%d", site.ID, n, site.NotInSQL, len(b.x)))
+			}
 		}
-		if idx < *flagFrom {
-			continue
+	}
+	enumerate(thorough, func(idx, si int, ph string, s string) {
+		if !mine(si) || (*flagOnly >= 0 && idx != *flagOnly) || idx < *flagFrom {
+			return
 		}
-		site := &sites[idx/len(H)]
-		s := H[idx%len(H)]
-		if site.Secondary && reduced != nil && !reduced[s] {
-			fmt.Fprintf(w, "R\t%d\tskipped_secondary_site_quick_tier\t0\t0\t-\t\n", idx)
-			continue
-		}
+		site := &sites[si]
 		if site.Quote.Only != nil && !site.Quote.Only(s) {
-			fmt.Fprintf(w, "R\t%d\tinexpressible\t0\t0\t-\t\n", idx)
-			continue
+			fmt.Fprintf(w, "R\t%d\t%d\tinexpressible\t0\t0\t-\t\t\n", idx, si)
+			return
 		}
 		// the journal line must be on the pipe before the case runs
 		fmt.Fprintf(w, "B\t%d\n", idx)
@@ -298,28 +329,8 @@ func workerMain(thorough bool) {
 		if r.NSQL > 0 {
 			h = hash64(site.ID, r.Value)
 		}
-		fmt.Fprintf(w, "R\t%d\t%s\t%d\t%d\t%s\t%s\t%s\n", idx, r.Outcome, r.NSQL, r.Carriers, h, r.Class, reasonClass(r))
-	}
-	// sites whose harmless values never reach a statement although they were expected to
-	var silent []string
-	if *flagShard == 0 && *flagOnly < 0 && *flagFrom == 0 {
-		for i := range sites {
-			site := &sites[i]
-			va := defaultBaselineVariant(site)
-			b := c.baseline(site, va)
-			n := 0
-			var bf *Finding
-			if b.loaded {
-				bf, n = compare(b.x, b.x, b.y, va, b.vx, b.vx, b.vy)
-			}
-			if bf != nil {
-				continue // the harmless renderings themselves break the oracle: reported as violations by the cases
-			}
-			if (n == 0) != site.NotInSQL {
-				silent = append(silent, fmt.Sprintf("%s carriers=%d notInSQL=%v statements=%d", site.ID, n, site.NotInSQL, len(b.x)))
-			}
-		}
-	}
+		fmt.Fprintf(w, "R\t%d\t%d\t%s\t%d\t%d\t%s\t%s\t%s\n", idx, si, r.Outcome, r.NSQL, r.Carriers, h, r.Class, reasonClass(r))
+	})
 	b, _ := json.Marshal(map[string]any{"renders": c.renders, "carrier_mismatch": silent})
 	fmt.Fprintf(w, "E\t%s\n", b)
 	w.Flush()
@@ -333,6 +344,7 @@ type agg struct {
 	outcomes   map[string]int64
 	byGroup    map[string]map[string]int64
 	byLang     map[string]map[string]int64
+	byCtx      map[string]map[string]int64
 	classCount map[string]int64
 	rejects    map[string]map[string]int64
 	violations []violationMsg
@@ -343,7 +355,7 @@ type agg struct {
 	died       []string
 }
 
-func runWorker(r *ev.Run, exe string, shard, of, from, only int, a *agg, H []string) (lastBegun int, finished bool) {
+func runWorker(r *ev.Run, exe string, shard, of, from, only int, a *agg) (lastBegun int, finished bool) {
 	args := []string{"--worker", "--shard", strconv.Itoa(shard), "--of", strconv.Itoa(of), "--from", strconv.Itoa(from),
 		"--only", strconv.Itoa(only), "--tier", r.Tier}
 	cmd := exec.Command(exe, args...)
@@ -403,24 +415,29 @@ func runWorker(r *ev.Run, exe string, shard, of, from, only int, a *agg, H []str
 				a.mu.Unlock()
 			}
 		case "R":
+			if len(f) < 9 {
+				continue
+			}
 			idx, _ := strconv.Atoi(f[1])
-			nsql, _ := strconv.Atoi(f[3])
-			site := &sites[idx/len(H)]
+			si, _ := strconv.Atoi(f[2])
+			nsql, _ := strconv.Atoi(f[4])
+			site := &sites[si]
 			a.mu.Lock()
 			if !a.done[idx] {
 				a.done[idx] = true
-				a.outcomes[f[2]]++
-				bump(a.byGroup, site.Group, f[2])
-				bump(a.byLang, site.Lang, f[2])
+				a.outcomes[f[3]]++
+				bump(a.byGroup, site.Group, f[3])
+				bump(a.byLang, site.Lang, f[3])
+				bump(a.byCtx, site.Kind+"@"+site.Ctx, f[3])
 				a.statements += int64(nsql)
-				if f[5] != "-" {
-					a.distinct[f[5]] = struct{}{}
+				if f[6] != "-" {
+					a.distinct[f[6]] = struct{}{}
 				}
-				if len(f) > 6 && f[6] != "" {
-					a.classCount[f[6]]++
+				if f[7] != "" {
+					a.classCount[f[7]]++
 				}
-				if len(f) > 7 && f[7] != "" {
-					bump(a.rejects, site.Lang, f[7])
+				if f[8] != "" {
+					bump(a.rejects, site.Lang, f[8])
 				}
 			}
 			a.mu.Unlock()
@@ -460,8 +477,14 @@ func scratchDir() string {
 	return os.TempDir()
 }
 
-func describeCase(idx int, H []string) string {
-	return fmt.Sprintf("site=%s s=%q", sites[idx/len(H)].ID, H[idx%len(H)])
+func describeCase(thorough bool, want int) string {
+	d := "?"
+	enumerate(thorough, func(idx, si int, ph string, s string) {
+		if idx == want {
+			d = fmt.Sprintf("site=%s s=%q", sites[si].ID, s)
+		}
+	})
+	return d
 }
 
 func main() {
@@ -471,7 +494,6 @@ func main() {
 		workerMain(r.Thorough())
 		return
 	}
-	H := hostileSet(r.Thorough())
 	if *flagList {
 		listSites()
 		return
@@ -503,8 +525,13 @@ func main() {
 	if err != nil {
 		ev.Fatal("executable: %v", err)
 	}
-	total := len(sites) * len(H)
-	a := &agg{done: map[int]bool{}, outcomes: map[string]int64{}, byGroup: map[string]map[string]int64{}, byLang: map[string]map[string]int64{},
+	nStrings := map[string]bool{}
+	perPhase := map[string]int{}
+	total := enumerate(r.Thorough(), func(idx, si int, ph string, s string) {
+		nStrings[s] = true
+		perPhase[ph]++
+	})
+	a := &agg{done: map[int]bool{}, outcomes: map[string]int64{}, byGroup: map[string]map[string]int64{}, byLang: map[string]map[string]int64{}, byCtx: map[string]map[string]int64{},
 		classCount: map[string]int64{}, distinct: map[string]struct{}{}, rejects: map[string]map[string]int64{}}
 	var wg sync.WaitGroup
 	for sh := 0; sh < W; sh++ {
@@ -513,7 +540,7 @@ func main() {
 			defer wg.Done()
 			from := 0
 			for {
-				last, finished := runWorker(r, exe, sh, W, from, -1, a, H)
+				last, finished := runWorker(r, exe, sh, W, from, -1, a)
 				if finished || time.Now().After(r.Deadline) {
 					return
 				}
@@ -523,12 +550,12 @@ func main() {
 				// the worker died inside case `last`: re-run it alone three times
 				deaths := 0
 				for k := 0; k < 3; k++ {
-					if _, ok := runWorker(r, exe, last%W, W, last, last, a, H); !ok {
+					if _, ok := runWorker(r, exe, sh, W, last, last, a); !ok {
 						deaths++
 					}
 				}
 				a.mu.Lock()
-				a.died = append(a.died, fmt.Sprintf("%s deaths_alone=%d/3", describeCase(last, H), deaths))
+				a.died = append(a.died, fmt.Sprintf("%s deaths_alone=%d/3", describeCase(r.Thorough(), last), deaths))
 				if !a.done[last] {
 					a.done[last] = true
 					a.outcomes["worker_died"]++
@@ -549,7 +576,7 @@ func main() {
 	if len(a.died) > 0 {
 		r.Cap("a worker process died on: " + strings.Join(a.died, "; ") + " (crash of the code under test: property C12, not judged here)")
 	}
-	r.AddEval(int64(len(a.done)) - a.outcomes["inexpressible"] - a.outcomes["skipped_secondary_site_quick_tier"])
+	r.AddEval(int64(len(a.done)) - a.outcomes["inexpressible"])
 	for _, k := range sortedKeys(a.outcomes) {
 		for i := int64(0); i < a.outcomes[k]; i++ {
 			r.Outcome(k)
@@ -562,7 +589,9 @@ func main() {
 	r.Transitions = a.statements
 	r.TracesValidated = a.renders
 	r.Extra["sites"] = len(sites)
-	r.Extra["hostile_strings"] = len(H)
+	r.Extra["hostile_strings"] = len(nStrings)
+	r.Extra["cases_per_phase_in_priority_order"] = perPhase
+	r.Extra["by_value_kind_and_context"] = a.byCtx
 	r.Extra["hostile_atoms"] = len(coreAtoms) + len(extAtoms)
 	r.Extra["cases_total"] = total
 	r.Extra["sql_statements_tokenized"] = a.statements
@@ -574,9 +603,9 @@ func main() {
 	if len(a.died) > 0 {
 		r.Extra["worker_deaths"] = a.died
 	}
-	r.Sample(map[string]string{"site": sites[0].ID, "s": H[0]})
-	r.Sample(map[string]string{"site": sites[len(sites)/2].ID, "s": H[len(H)/2]})
-	r.Sample(map[string]string{"site": sites[len(sites)-1].ID, "s": H[len(H)-1]})
+	r.Sample(map[string]string{"site": sites[0].ID, "s": "'"})
+	r.Sample(map[string]string{"site": sites[len(sites)/2].ID, "s": "\\'"})
+	r.Sample(map[string]string{"site": sites[len(sites)-1].ID, "s": "--"})
 	sort.Slice(a.violations, func(i, j int) bool { return a.violations[i].Idx < a.violations[j].Idx })
 	shown := map[string]int{}
 	for _, v := range a.violations {
